@@ -189,7 +189,7 @@ OPEN_DEFECTS = {
     "D12": ("squash keeps only fragid/mapping of the removed copy (annotations, weights, E/Z marks, names)", ["C10", "C14", "C15", "C18", "C12", "C02"]),
     "D13": ("cis/trans depends on the order of the fragments; a slash before a descriptor marks the next atom", ["C15", "C10"]),
     "D14": ("greedy first-match pairing gives fewer bonds than the edge order for ambiguous descriptors", ["C03", "C08"]),
-    "D15": ("coarse fragments are written with the fragment's own name for every node: {#A=[#B][$][#C]}", ["C08"]),
+    "D15": ("annotations of coarse fragment nodes are not written (the node names, the other half of D15, are repaired: d3a864c)", ["C08"]),
     "D16": ("element masses count a hydrogen per open descriptor; labels ending in a digit are read as orders in the tables", ["C17"]),
     "D17": ("the RDKit bridge re-perceives aromaticity and rewrites pentavalent N; UFF fails on order-0 bonds", ["C18"]),
     "D18": ("a lone node without fragment and without edges resolves to an empty molecule (the dangling ring index inside an all-atom fragment, the other half of D18, is repaired: 2cec6f4)", ["C20"]),
@@ -197,7 +197,7 @@ OPEN_DEFECTS = {
 
 
 def prop(pid, rules, decided, undecided, floors=None, assumptions=None):
-    reported = {"D5", "D6", "D15", "D17"}      # rules/gaps.py states a necessary condition for these: KNOWN-FINDING lines
+    reported = {"D5", "D6", "D17"}      # rules/gaps.py states a necessary condition for these: KNOWN-FINDING lines
     known = ["%s (%s%s)" % (k, v[0], ", reported as KNOWN-FINDING" if k in reported else ", not reported by any rule") for k, v in OPEN_DEFECTS.items() if pid in v[1]]
     if known:
         undecided = undecided + "; KNOWN VIOLATIONS of the behaviour, found by testing (DESIGN 16): " + "; ".join(known)
